@@ -420,6 +420,81 @@ class TIMachine(FormatMachine):
         (s.model["top"] if into == "top" else s.model["vars"][into]["children"]).append(vid)
         return "ok"
 
+    def op_ti_var_offer(self, op):
+        """A variant is offered to a variant of the tree in a way the library refuses: a child whose UID does not line up, a
+        second object under an ID that is taken, the top-level variant of ANOTHER tree whose twin already lives here.  What
+        treeinfo's add() does with such an offer is no property's subject; its CONSEQUENCES are: whatever the tree is
+        afterwards, a file the library agrees to write for it is read back (C04), and a refused offer does not change the
+        bytes another tree is written as (C08)."""
+        s = self.slot(op)
+        into = str(op.get("into"))
+        if s is None or s.obj is None or s.tainted or into not in s.pool or s.model["vars"][into]["parent"] is None:
+            return "noop"
+        M = self.mods()
+        mi = s.model["vars"][into]
+        kind = op["kind"]
+        other = None
+        if kind == "misaligned":
+            v = M.Variant(s.obj)
+            v.id = v.uid = v.name = "HA%d" % (op.get("n", 0) % 10)
+            v.type = "addon"
+            v.paths.repository, v.paths.packages = "addons/HA", "addons/HA/Packages"
+        else:
+            if not mi["children"]:
+                return "noop"
+            mc = s.model["vars"][mi["children"][op.get("n", 0) % len(mi["children"])]]
+            owner = s.obj
+            if kind == "foreign-twin":
+                other = M.TreeInfo()
+                for sec, fields in (("release", REL_FIELDS), ("base_product", BP_FIELDS)):
+                    for f in fields:
+                        setattr(getattr(other, sec), f, getattr(getattr(s.obj, sec), f))
+                other.tree.arch, other.tree.build_timestamp = s.obj.tree.arch, s.obj.tree.build_timestamp
+                owner = other
+            v = M.Variant(owner)
+            v.id, v.uid, v.name, v.type = mc["id"], mc["uid"], "twin of " + str(mc["name"]), mc["type"]
+            v.paths.repository, v.paths.packages = "twin", "twin/Packages"
+            if other is not None:
+                try:
+                    other.variants.add(v, variant_id=v.uid)
+                    before2 = other.dumps()
+                except Exception as e:
+                    if isinstance(e, HarnessError):
+                        raise
+                    return "noop-other-tree-not-buildable"
+        before = observe_ti(s.obj)
+        try:
+            s.pool[into].add(v)
+            raised = None
+        except Exception as e:
+            if isinstance(e, HarnessError):
+                raise
+            raised = e
+        after = observe_ti(s.obj)
+        CTX.probe("ti.offer.%s.%s" % (kind, "refused" if raised is not None else "accepted"))
+        if raised is not None:
+            CTX.fault("F5.refused_api_call")
+        focus = self.cfg.get("focus")
+        if other is not None and raised is not None and focus in ("C04", "C08"):
+            try:
+                after2 = other.dumps()
+            except Exception as e:
+                if isinstance(e, HarnessError):
+                    raise
+                after2 = "raises " + exc_class(e)
+            self.count(focus, ["offer-foreign-twin", mc["type"]])
+            if after2 != before2:
+                raise Violation(focus, "%s.refused_offer_leaves_the_other_tree_alone" % focus, "another-tree-written-differently-after-refused-add",
+                                {"diff": _text_diff(before2, after2) if "_text_diff" in globals() else [before2[-200:], after2[-200:]]})
+        if after != before:
+            # the tree is no longer what the model says: no model oracle from here on, but the library's own output is still
+            # held against itself (see op_restart: it must load, and re-dump byte for byte)
+            s.tainted = True
+            s.self_rt = True
+            CTX.probe("ti.offer.changed_the_tree")
+            return "offer-changed:" + kind
+        return "offer-unchanged:" + kind
+
     def _ancestors(self, model, vid):
         out, cur, guard = [], vid, 0
         while cur not in (None, "top") and guard < 50:
